@@ -25,7 +25,7 @@ m = {
     "hooks": {
         "guard": "verif",
         "enable": "go test -tags verif (the harness module /verif/harness replaces the hprose module with /repo and always builds with -tags verif)",
-        "baseline_off_cmd": "cd /repo && go test -mod=mod -vet=off -count=1 -timeout 25m ./...",
+        "baseline_off_cmd": "cd /repo && go test -p 1 -mod=mod -vet=off -count=1 -timeout 25m ./...",
         "source_commits": HOOK_COMMITS,
         "add_only": True,
     },
